@@ -1,0 +1,157 @@
+// Verification hooks (compiled only with `--cfg slawlor_ractor_verif`).
+//
+// Thin wrappers that expose the crate-private frame reader (`read_network_message`,
+// `encode_network_message`, the `SessionReader` actor) to an external
+// differential-testing harness. They call the real functions; no logic lives here.
+
+//! Verification hooks for the frame reader (only with `--cfg slawlor_ractor_verif`).
+
+use prost::Message as _;
+use ractor::Actor;
+use ractor::ActorProcessingErr;
+use ractor::ActorRef;
+use ractor::SupervisionEvent;
+use tokio::io::ErrorKind;
+
+use super::read_network_message;
+use super::ActorReadHalf;
+use super::SessionMessage;
+use super::SessionReader;
+use crate::protocol::NetworkMessage;
+
+/// Decode a payload with the real protobuf decoder; `Some(canonical re-encoding)` if it decodes.
+pub fn decode_payload(bytes: &[u8]) -> Option<Vec<u8>> {
+    NetworkMessage::decode(bytes).ok().map(|m| m.encode_to_vec())
+}
+
+/// Frame a payload that decodes with the real `encode_network_message`.
+pub fn encode_frame(payload: &[u8]) -> Option<Vec<u8>> {
+    let msg = NetworkMessage::decode(payload).ok()?;
+    let mut buf = Vec::new();
+    super::encode_network_message(&msg, &mut buf);
+    Some(buf)
+}
+
+/// The real `checked_frame_length`: `Ok(len)` or the error text.
+pub fn checked_frame_length(length: u64, max_frame_size: u64) -> Result<usize, String> {
+    super::checked_frame_length(length, max_frame_size).map_err(|e| e.to_string())
+}
+
+/// A read half over an external transport on which the real `read_network_message` is called.
+#[allow(missing_debug_implementations)]
+pub struct VerifFrameReader {
+    half: ActorReadHalf,
+    max: u64,
+}
+
+impl VerifFrameReader {
+    /// Wrap an external reader; `max` is the inbound frame size limit.
+    pub fn new(reader: crate::net::BoxRead, max: u64) -> Self {
+        Self {
+            half: ActorReadHalf::External(reader),
+            max,
+        }
+    }
+
+    /// One call of the real `read_network_message`: the message re-encoded, or `(kind, text)`.
+    pub async fn read_one(&mut self) -> Result<Vec<u8>, (ErrorKind, String)> {
+        match read_network_message(&mut self.half, self.max).await {
+            Ok(msg) => Ok(msg.encode_to_vec()),
+            Err(e) => Err((e.kind(), e.to_string())),
+        }
+    }
+}
+
+/// What the real `SessionReader` actor did, as seen by the actor standing in for its session.
+#[derive(Debug)]
+pub enum ReaderEvent {
+    /// `ObjectAvailable(msg)`, re-encoded
+    Object(Vec<u8>),
+    /// the reader actor stopped with this reason
+    Stopped(Option<String>),
+    /// the reader actor failed (panicked / handler error)
+    Failed(String),
+}
+
+struct SinkSession {
+    tx: tokio::sync::mpsc::UnboundedSender<ReaderEvent>,
+}
+
+#[cfg_attr(feature = "async-trait", ractor::async_trait)]
+impl Actor for SinkSession {
+    type Msg = SessionMessage;
+    type State = ();
+    type Arguments = ();
+
+    async fn pre_start(
+        &self,
+        _myself: ActorRef<Self::Msg>,
+        _args: (),
+    ) -> Result<Self::State, ActorProcessingErr> {
+        Ok(())
+    }
+
+    async fn handle(
+        &self,
+        _myself: ActorRef<Self::Msg>,
+        message: Self::Msg,
+        _state: &mut Self::State,
+    ) -> Result<(), ActorProcessingErr> {
+        if let SessionMessage::ObjectAvailable(msg) = message {
+            let _ = self.tx.send(ReaderEvent::Object(msg.encode_to_vec()));
+        }
+        Ok(())
+    }
+
+    async fn handle_supervisor_evt(
+        &self,
+        _myself: ActorRef<Self::Msg>,
+        message: SupervisionEvent,
+        _state: &mut Self::State,
+    ) -> Result<(), ActorProcessingErr> {
+        match message {
+            SupervisionEvent::ActorTerminated(_, _, reason) => {
+                let _ = self.tx.send(ReaderEvent::Stopped(reason));
+            }
+            SupervisionEvent::ActorFailed(_, err) => {
+                let _ = self.tx.send(ReaderEvent::Failed(err.to_string()));
+            }
+            _ => {}
+        }
+        Ok(())
+    }
+}
+
+/// Run the real `SessionReader` actor over `reader` until it stops; returns everything it
+/// forwarded to its session followed by how it ended.
+pub async fn run_session_reader(reader: crate::net::BoxRead, max: u64) -> Vec<ReaderEvent> {
+    let (tx, mut rx) = tokio::sync::mpsc::unbounded_channel();
+    let (sink, sink_handle) = Actor::spawn(None, SinkSession { tx }, ())
+        .await
+        .expect("sink session should start");
+    let spawned = Actor::spawn_linked(
+        None,
+        SessionReader {
+            session: sink.clone(),
+            max_inbound_frame_size: max,
+        },
+        ActorReadHalf::External(reader),
+        sink.get_cell(),
+    )
+    .await;
+    let mut events = Vec::new();
+    if spawned.is_err() {
+        events.push(ReaderEvent::Failed("spawn".to_string()));
+    } else {
+        while let Some(ev) = rx.recv().await {
+            let done = !matches!(ev, ReaderEvent::Object(_));
+            events.push(ev);
+            if done {
+                break;
+            }
+        }
+    }
+    sink.stop(None);
+    let _ = sink_handle.await;
+    events
+}
